@@ -55,6 +55,9 @@ type shutdownContext struct {
 	// supervisor. Closing the channel is basically a persistent broadcast of process exit.
 	// We never write anything to the channels
 	runtimeDomainExited map[string]chan struct{}
+	// channels of processes whose exit a shutdown gave up waiting for; a later
+	// shutdown does not wait for them again
+	abandonedExited map[string]chan struct{}
 }
 
 func newShutdownContext() *shutdownContext {
@@ -63,6 +66,7 @@ func newShutdownContext() *shutdownContext {
 		shuttingDown:             false,
 		agentsAwaitingExit:       make(map[string]*core.ExternalAgent),
 		runtimeDomainExited:      make(map[string]chan struct{}),
+		abandonedExited:          make(map[string]chan struct{}),
 		runtimeDomainExitedMutex: sync.Mutex{},
 	}
 }
@@ -117,6 +121,9 @@ func (s *shutdownContext) getExitedChannel(name string) (chan struct{}, bool) {
 	s.runtimeDomainExitedMutex.Lock()
 	defer s.runtimeDomainExitedMutex.Unlock()
 	exitedChannel, found := s.runtimeDomainExited[name]
+	if !found {
+		exitedChannel, found = s.abandonedExited[name]
+	}
 	return exitedChannel, found
 }
 
@@ -137,6 +144,21 @@ func (s *shutdownContext) removeExitedChannel(name string) {
 	s.runtimeDomainExitedMutex.Lock()
 	defer s.runtimeDomainExitedMutex.Unlock()
 	delete(s.runtimeDomainExited, name)
+}
+
+// handleStaleProcessExit releases whoever may still wait for the exit of a process of an
+// earlier generation; its channel may be gone already.
+func (s *shutdownContext) handleStaleProcessExit(name string) {
+	s.runtimeDomainExitedMutex.Lock()
+	defer s.runtimeDomainExitedMutex.Unlock()
+	if exitedChannel, found := s.runtimeDomainExited[name]; found {
+		close(exitedChannel)
+		delete(s.runtimeDomainExited, name)
+	}
+	if exitedChannel, found := s.abandonedExited[name]; found {
+		close(exitedChannel)
+		delete(s.abandonedExited, name)
+	}
 }
 
 // Blocks until all the processes in the runtime domain generation have exited.
@@ -163,6 +185,18 @@ func (s *shutdownContext) clearExitedChannel() error {
 		select {
 		case <-v:
 		case <-exitTimeout:
+			// give up on these processes for good: their generation is over, and the
+			// shutdown of a later generation must not wait for them again
+			s.runtimeDomainExitedMutex.Lock()
+			for name, c := range s.runtimeDomainExited {
+				select {
+				case <-c:
+				default:
+					s.abandonedExited[name] = c
+				}
+			}
+			s.runtimeDomainExited = make(map[string]chan struct{}, mapLen)
+			s.runtimeDomainExitedMutex.Unlock()
 			return errors.New("timed out waiting for runtime processes to exit")
 		}
 	}
